@@ -95,13 +95,15 @@ func ReadPacket(r *bufio.Reader, channelConfig []int) (*Packet, error) {
 			p.Channel = byte(i)
 			if p.Channel == ChannelVideo || p.Channel == ChannelAudio {
 				if err = p.Header.Unmarshal(p.Data); err != nil {
-					return nil, err
+					// 整个交错帧已读完，流仍然同步：连同包一起返回，由调用者决定忽略
+					return p, err
 				}
 			}
 			return p, nil
 		}
 	}
-	return nil, errors.New("RTP Packet illegal channel")
+	// 同上：未订阅/未知通道的帧已完整读出，返回包以便调用者忽略它而不是断开连接
+	return p, errors.New("RTP Packet illegal channel")
 }
 
 // Write 根据规范将 RTP 包输出到 w
